@@ -722,6 +722,11 @@ func runCase(cs *caseSpec, scratch string, res *caseResult) {
 				"config": c, "batch_index": bi, "batch_shape": b.Shape, "plan": b.Plan, "events": evWitness(b),
 				"failing_event_index": f.Idx, "detail": f.Detail,
 			}
+			var earlier []string
+			for k := 0; k < bi && k < len(cs.Batches); k++ {
+				earlier = append(earlier, cs.Batches[k].Shape)
+			}
+			w["earlier_batches_on_this_worker"] = earlier
 			if f.Idx >= 0 && f.Idx < len(j.exp) {
 				w["failing_event"] = core_trunc(string(j.exp[f.Idx].Text), 600)
 			}
@@ -787,6 +792,12 @@ func runCase(cs *caseSpec, scratch string, res *caseResult) {
 			// nobody listens: the first connect is refused; start listening now so that the retry succeeds
 			time.Sleep(150 * time.Millisecond)
 			sink, err := newTCPSink(s.gelfAddr)
+			for try := 0; err != nil && try < 60; try++ {
+				// the reserved ephemeral port may be taken for a moment by somebody's outgoing
+				// connection; the plugin keeps retrying (1 s apart), so there is time
+				time.Sleep(50 * time.Millisecond)
+				sink, err = newTCPSink(s.gelfAddr)
+			}
 			if err != nil {
 				res.Inconclusive = append(res.Inconclusive, "cannot re-listen on reserved port: "+err.Error())
 				return
